@@ -265,6 +265,31 @@ def run_gate(spec):
                 msg=f"{estimator} alphas={alphas} with {max(nmin, 1)} reporting units (its minimum) on a client that "
                     f"earlier ran nonparametric [0.95] with {first_n} units: {info['type']}: {info['msg']}",
                 witness=dict(exc=info)))
+    # the feed lists ONLY the units that have reported so far (under the drop policy the others are then not even
+    # outstanding units of the run) or the whole contest is smaller than the minimum and complete: still too few
+    for off in (-3, -1):
+        n = nmin + off
+        if n < 1:
+            continue
+        for variant in ("feed-lists-reported-units-only", "small-contest-all-in"):
+            el_o, feed_o, call_o, _ = clean_case(spec, estimator, n, alphas, salt=75 + off)
+            keep_ids = set(feed_o.loc[feed_o.percent_expected_vote >= 100, "geographic_unit_fips"])
+            feed_o = feed_o[feed_o.geographic_unit_fips.isin(keep_ids)].reset_index(drop=True)
+            if variant == "small-contest-all-in":
+                el_o.pre = el_o.pre[el_o.pre.geographic_unit_fips.isin(keep_ids)].reset_index(drop=True)
+            with harness.patched() as p:
+                harness.fast_boot_sigma(p, 100)
+                _, exc_o = harness.run_estimates(el_o, feed_o, call_o)
+            out["counters"]["gate_only_reported_runs"] = out["counters"].get("gate_only_reported_runs", 0) + 1
+            outcome = "ok" if exc_o is None else type(exc_o).__name__
+            if not (exc_o is not None and type(exc_o) is cm.ModelNotEnoughSubunitsException):
+                info = harness.exc_info(exc_o)
+                out["violations"].append(dict(
+                    key=f"C14/gate/too-few-units-but-{outcome}/{variant}",
+                    msg=f"{estimator} alphas={alphas}, {variant}: {n} reporting units (minimum {nmin}), no unit "
+                        f"outstanding; expected ModelNotEnoughSubunitsException, got {outcome}"
+                        + (f": {info['msg']} at {info['where']}" if info else ""), witness=dict(exc=info)))
+            out["sigs"].append(["gate-only-reported", estimator, variant, off, outcome])
     # start of the night: no expected unit reaches the model at all (0 is below every minimum => dedicated error)
     el_c, feed_c, call_c, _ = clean_case(spec, estimator, max(nmin, 1) + 2, alphas, salt=70)
     stray = feed_c.iloc[0:2].copy()
